@@ -103,6 +103,9 @@ func (p *parsing) parseSwitch(tok token, end tokenTyp) ast.Node {
 		// switch x := 3; x + y {
 		// switch x = y.(type) {
 		// switch x := 2; x = y.(type) {
+		if expressions == nil {
+			panic(syntaxError(tok.pos, "unexpected %s, expecting expression", tok))
+		}
 		assignment, tok = p.parseAssignment(expressions, tok, false, true, true)
 		switch tok.typ {
 		case tokenSemicolon:
@@ -122,6 +125,9 @@ func (p *parsing) parseSwitch(tok token, end tokenTyp) ast.Node {
 				// This is the only valid case where there is an assignment
 				// before and after the semicolon token:
 				//     switch x := 2; x = y.(type) {
+				if expressions == nil {
+					panic(syntaxError(tok.pos, "unexpected %s, expecting expression", tok))
+				}
 				assignment, tok = p.parseAssignment(expressions, tok, false, true, true)
 				ta, ok := assignment.Rhs[0].(*ast.TypeAssertion)
 				// TODO (Gianluca): should error contain the position of the
